@@ -37,10 +37,10 @@ type RedisCache struct {
 }
 
 type redisSetOp struct {
-	k     pool.Buffer
-	v     pool.Buffer
-	ttlMs int64
-	nx    bool
+	k          pool.Buffer
+	v          pool.Buffer
+	expireTime time.Time
+	nx         bool
 }
 
 func NewRedisCache(u string, logger *zerolog.Logger) (*RedisCache, error) {
@@ -171,7 +171,7 @@ func (c *RedisCache) AsyncStore(k []byte, storedTime, expireTime time.Time, v []
 	key := pool.CopyBuf(k)
 	value := c.buildValue(storedTime, expireTime, v)
 	select {
-	case c.setOpChan <- redisSetOp{k: key, v: value, ttlMs: ttlMs, nx: setNX}:
+	case c.setOpChan <- redisSetOp{k: key, v: value, expireTime: expireTime, nx: setNX}:
 	default:
 		pool.ReleaseBuf(key)
 		pool.ReleaseBuf(value)
@@ -220,11 +220,21 @@ func (c *RedisCache) setLoop() {
 		case op := <-c.setOpChan:
 			start := time.Now()
 
+			// The op may have been waiting in the queue. The ttl must be
+			// the remaining lifetime now, not at the time it was queued.
+			ttlMs := op.expireTime.Sub(start).Milliseconds()
+			if ttlMs <= 10 {
+				pool.ReleaseBuf(op.k)
+				pool.ReleaseBuf(op.v)
+				c.setDroppedTotal.Inc()
+				continue
+			}
+
 			var cmd rueidis.Completed
 			if op.nx {
-				cmd = c.client.B().Set().Key(rueidis.BinaryString(op.k)).Value(rueidis.BinaryString(op.v)).Nx().PxMilliseconds(op.ttlMs).Build()
+				cmd = c.client.B().Set().Key(rueidis.BinaryString(op.k)).Value(rueidis.BinaryString(op.v)).Nx().PxMilliseconds(ttlMs).Build()
 			} else {
-				cmd = c.client.B().Set().Key(rueidis.BinaryString(op.k)).Value(rueidis.BinaryString(op.v)).PxMilliseconds(op.ttlMs).Build()
+				cmd = c.client.B().Set().Key(rueidis.BinaryString(op.k)).Value(rueidis.BinaryString(op.v)).PxMilliseconds(ttlMs).Build()
 			}
 
 			ctx, cancel := context.WithTimeout(context.Background(), time.Second*3)
